@@ -55,6 +55,15 @@ fn main() {
             report = Report::new("C11", "pairs/triples of paths over a component alphabet (exhaustive to depth 2, sampled to depth 5, plus arbitrary strings); non-trivial = the two paths differ; distinct by canonical text of the case");
             c11::run(&tier, seed, &mut report);
             c11walk::run(&tier, seed, &mut report);
+            // "every listing … in strictly increasing order": the stitched listings of C08's arrangements of
+            // complete / interrupted / empty / deleted versions, kept only for their order
+            let mut sub = Report::new("C08", "");
+            c08::run(&tier, seed, &mut sub);
+            report.hit_n("stitched-listings-checked-for-order", sub.evaluations);
+            report.evaluations += sub.evaluations;
+            for f in sub.oracle_failures.iter().filter(|f| f["signature"] == "list:not-sorted" || f["signature"] == "list:no-termination") {
+                report.oracle_fail("listing-not-increasing", f["case"].clone(), "a stitched listing is not strictly increasing in path order", f["observed"].clone());
+            }
         }
         "C12" => {
             report = Report::new("C12", "pairs (subtree, path) of valid apaths: exhaustive to depth 2, sampled extensions (by component and textual) to depth 4; non-trivial = the subtree is a textual prefix of the path");
